@@ -122,7 +122,7 @@ def run(ctx):
             raise vlib.Infra("vacuous: spec actions never taken in %s: %s" % (cfg, mc["zero_actions"]))
         ctx.add_mc("Conflict exhaustive " + cfg, mc)
     depth = 36
-    sim = vlib.tlc_sim(ctx, "Conflict", "Conflict_sim.cfg", num=ctx.pick(110, 500), depth=depth, timeout=1200)
+    sim = vlib.tlc_sim(ctx, "Conflict", "Conflict_sim.cfg", num=ctx.pick(110, 250), depth=depth, timeout=1200)
     behs = sim["behaviours"]
     ctx.cov["evaluations"] = len(behs)
     ctx.cov["rule"] = ("behaviours = TLC -simulate runs of Conflict.tla GenNext (36 steps over detect / commit / reveal / "
